@@ -99,6 +99,36 @@ def linked_law_needs_active_contact(ctx):
                             f"excluding `{v} is None` first", f"{rel}:{ln.lineno}")
 
 
+def inactive_forces_zero(ctx, rule="C16.R11"):
+    """u_dot0, la_g0 are solved with the forces of the ACTIVE contacts only (W_N[:, B_N] la_N1 + W_F[:, B_F] la_F1).  The returned full-length
+    vectors satisfy the equations of motion and Signorini's law on acceleration level only if every other entry is zero.  That holds when the
+    only whole-vector bindings of la_N0 / la_F0 are zero buffers and all other writes are element stores."""
+    rep = ctx.rep
+    fn = ctx.repo.get(SB, "consistent_initial_conditions")
+    C = f"{SB}:consistent_initial_conditions"
+    rets = [r for r in ast.walk(fn) if isinstance(r, ast.Return) and isinstance(r.value, ast.Tuple)]
+    names = set()
+    for r in rets:
+        for e in r.value.elts:
+            if isinstance(e, ast.Name) and e.id in ("la_N0", "la_F0"):
+                names.add(e.id)
+    if len(names) < 2:
+        rep.ok(rule, C, "la_N0 / la_F0 are not returned by name (no verdict)", verdict="unknown", trivial=True)
+        return
+    for nm in sorted(names):
+        binds = [w for w in ast.walk(fn) if isinstance(w, ast.Assign) and any(isinstance(t, ast.Name) and t.id == nm for t in w.targets)]
+        binds += [w for w in ast.walk(fn) if isinstance(w, ast.Assign) and any(isinstance(t, ast.Tuple) and any(isinstance(x, ast.Name) and x.id == nm for x in t.elts) for t in w.targets)]
+        bad = [b for b in binds if not (isinstance(b.value, ast.Call) and (dotted(b.value.func) or "").split(".")[-1] in ("zeros", "zeros_like"))]
+        if bad:
+            rep.bad(rule, C, bad[0], f"`{norm_src(bad[0])[:80]}`: the returned `{nm}` does not start as a zero buffer, so the entries of contacts outside the active set keep whatever that "
+                    "source holds (e.g. the forces of a previous assembly) while u_dot0 / la_g0 are solved without them: the returned tuple violates the equations of motion and puts a force "
+                    "on an open contact", f"{SB}:{bad[0].lineno}")
+        elif binds:
+            rep.ok(rule, C, f"`{nm}` starts as `{norm_src(binds[0].value)}`; all other writes are element stores on the active sets")
+        else:
+            rep.ok(rule, C, f"no whole-vector binding of `{nm}` found (no verdict)", verdict="unknown", trivial=True)
+
+
 def rejection_falsifiable(ctx, fn, C):
     """`assert all(g_N >= 0 or A_N)` rejects a penetrating state only if A_N ("the contact is closed") is FALSE for g_N clearly below zero,
     i.e. if A_N is a two-sided closeness test (np.isclose(g_N, 0), abs(g_N) <= tol).  A one-sided `g_N <= tol` contains every penetrating
@@ -240,6 +270,8 @@ def run(ctx):
     rep.rule("C16.R2", "rejection asserts dominate the normal return", 8)
     rep.rule("C16.R3", "evaluation point (t0, q0, u0)", 15)
     rep.rule("C16.R4", "acceleration-level prox template", 3)
+    rep.rule("C16.R11", "the contact forces assembly returns are ZERO outside the active sets by construction: la_N0 / la_F0 start as np.zeros(...) and only their active entries are stored; nothing of a previous assembly (or any other source) survives in the entries of open / separating contacts", 2)
+    inactive_forces_zero(ctx)
     rep.rule("C16.R7", "a friction law that depends on a normal force reaches the prox loop only for an ACTIVE normal contact (else it is mistaken for a constant reservoir)", 1)
     linked_law_needs_active_contact(ctx)
     rep.rule("C16.R6", "local normal/friction connectivity of the contacts active at t0 (index typing in compute_I_F, shared with C18.R5)", 4)
@@ -445,4 +477,10 @@ MUTANTS += [
          old='                if i_N_global in I_N:\n                    nla_F_local += n_F\n                    i_N_local = np.where(i_N_global == I_N)[0]\n                    I_F.extend(i_F_global)\n                    global_active_friction_laws.append(\n                        (i_N_local, i_F_local, force_reservoir)\n                    )\n                elif not slice:\n                    # friction law is kept although its normal contact is not\n                    # active: None marks the vanishing normal force (an empty\n                    # index would read as "no normal force dependence")\n                    nla_F_local += n_F\n                    I_F.extend(i_F_global)\n                    global_active_friction_laws.append(\n                        (None, i_F_local, force_reservoir)\n                    )\n', new='                if not slice or (i_N_global in I_N):\n                    nla_F_local += n_F\n                    i_N_local = np.where(i_N_global == I_N)[0]\n                    I_F.extend(i_F_global)\n                    global_active_friction_laws.append(\n                        (i_N_local, i_F_local, force_reservoir)\n                    )\n', expect="C16.R7"),
     dict(id="c16-r7-consumer", what="consistent_initial_conditions.prox asks len(i_N) without excluding the marker None of an inactive contact", file='cardillo/solver/_base.py',
          old='            if i_N is None:  # normal contact is not active: no normal force\n                la_Ni = 0.0\n            elif len(i_N) > 0:\n                la_Ni = la_N[i_N]\n', new='            if len(i_N) > 0:\n                la_Ni = la_N[i_N]\n', expect="C16.R7"),
+]
+
+MUTANTS += [
+    dict(id="c16-r11-seed", canary=True, what="[seeded by sub-agent] the contact fixed point is warm started with the forces of the previous assembly of the same system (entries of non-persistent contacts never reset)", file='cardillo/solver/_base.py',
+         old="    la_N0 = np.zeros(system.nla_N)\n    la_F0 = np.zeros(system.nla_F)\n",
+         new="    la_N0 = getattr(system, \"la_N0\", np.zeros(system.nla_N)).copy()\n    la_F0 = getattr(system, \"la_F0\", np.zeros(system.nla_F)).copy()\n", expect="C16.R11"),
 ]
